@@ -20,6 +20,7 @@ FLAGS_small := -O2 -DNDEBUG -DCMACIONIZE_VERIF_PHOTONBUFFER_SIZE=13u
 FLAGS_tiny  := -O2 -DNDEBUG -DCMACIONIZE_VERIF_PHOTONBUFFER_SIZE=5u
 FLAGS_asan  := -O1 -g -DNDEBUG -fno-omit-frame-pointer -fsanitize=address,undefined \
                -fno-sanitize-recover=undefined -DCMACIONIZE_VERIF_PHOTONBUFFER_SIZE=13u
+FLAGS_vg    := -O1 -g -DNDEBUG -fno-omit-frame-pointer -DDETSIM_VALGRIND -DCMACIONIZE_VERIF_PHOTONBUFFER_SIZE=13u
 FLAGS_tshim := -O2 -DNDEBUG -DCMACIONIZE_VERIF_PHOTONBUFFER_SIZE=5u
 # engine objects of the tshim variant are compiled with -fsanitize=thread and
 # linked against detsim/tsanshim.cpp instead of libtsan
@@ -29,6 +30,7 @@ LDFLAGS_tshim :=
 LDFLAGS_plain :=
 LDFLAGS_small :=
 LDFLAGS_tiny :=
+LDFLAGS_vg :=
 LDFLAGS_asan := -fsanitize=address,undefined
 
 # sources of the task-based engine (SharedEngine + TaskBasedEngine of the
@@ -55,7 +57,7 @@ GEN_SRC := CompilerInfo ConfigurationInfo
 DETSIM_SRC := sim driver simlibc
 LIBS_erng := -lgsl -lgslcblas
 
-VARIANTS := plain small tiny asan tshim
+VARIANTS := plain small tiny asan tshim vg
 
 .PHONY: all gen cont engines clean FORCE
 all: cont
@@ -116,6 +118,6 @@ clean:
 
 # ---- setup: everything a fresh restore needs ---------------------------------
 .PHONY: setup
-setup: cont $(B)/small/bin/eion $(B)/plain/bin/etl $(B)/plain/bin/efs $(B)/plain/bin/erng $(B)/small/bin/erhd $(B)/asan/bin/eion $(B)/asan/bin/erhd
+setup: cont $(B)/small/bin/eion $(B)/plain/bin/etl $(B)/plain/bin/efs $(B)/plain/bin/erng $(B)/small/bin/erhd $(B)/asan/bin/eion $(B)/asan/bin/erhd $(B)/vg/bin/eion $(B)/vg/bin/erhd
 	@$(ROOT)/tools/determinism.sh 32 > $(B)/determinism.log 2>&1 || (cat $(B)/determinism.log; false)
 	@tail -3 $(B)/determinism.log
